@@ -241,6 +241,8 @@ def _upwind_part(g, res, big=False):
             arrs[ax][idx] = val
             pats.append(arrs)
     pats += [[np.abs(a) for a in gen], [-np.abs(a) for a in gen], [np.zeros_like(a) for a in gen], gen]
+    # every combination of flow directions per axis (forward along one axis, backward or none along another)
+    pats += [[s_ * np.abs(a) for s_, a in zip(sg, gen)] for sg in U.axis_sign_patterns(g.d)]
     if big:     # many cells: checkerboards of +, -, 0
         for k in (2, 3):
             pats.append([np.where(np.indices(a.shape).sum(axis=0) % k == 0, np.abs(a), np.where(np.indices(a.shape).sum(axis=0) % k == 1, -np.abs(a), 0.0))
